@@ -516,6 +516,8 @@ func propC18(a *Analysis, r *Registry) {
 		})
 	}
 	propC18rest(a, r, b)
+	propC18scc(a, r, b)
+	propC18dot(a, r, b)
 	propC18quote(a, r, b)
 	sweepC18(a, r, b)
 	propC18equal(a, r, b)
